@@ -60,11 +60,13 @@ def make(ck, rnd, n):
     recs, metas = [], []
     for t in range(n):
         xorish = rnd.random() < 0.3
-        c = gen.gen_circuit(rnd, max_gates=ck.pick(8, 14), max_ff=2, kinds=['XOR2', 'XNOR2', 'XOR3', 'AND2', 'OR2', 'BUF1'] if xorish else None)
+        reuse = rnd.random() < 0.25
+        strip = rnd.random() < (0.7 if reuse else 0.3)
+        # with memory reuse only ports are observable: deeper circuits, so that released memory is handed out again
+        c = gen.gen_circuit(rnd, max_gates=ck.pick(16 if reuse else 8, 20 if reuse else 14), max_ff=2, kinds=['XOR2', 'XNOR2', 'XOR3', 'AND2', 'OR2', 'BUF1'] if xorish else None)
         lanes = rnd.choice([1, 2, 3])
         poldep = rnd.random() < 0.5
         d = gen.rand_delays(rnd, c, vals=(0, 1, 2, 3, 5, 8), poldep=poldep)
-        reuse, strip = rnd.random() < 0.2, rnd.random() < 0.3
         if strip:
             for f in c.forks.values():
                 for l in f.ins:
